@@ -386,7 +386,8 @@ def client_stage(c, cfg):
           reqs.append(dict(cfg, op='contains', pcs=dumped, assign=sl.assign_json(a)))
           meta.append((bname, dumped, a, kind, real, after - before))
   finally:
-    vizier_client.environment_variables.servicer_kwargs = saved
+    # never leave the default (a SQLite FILE inside the repo tree, constants.SQL_LOCAL_URL) behind
+    vizier_client.environment_variables.servicer_kwargs = dict(saved, database_url=saved.get('database_url'))
     vizier_client._create_local_vizier_servicer.cache_clear()     # pylint: disable=protected-access
   for (bname, dumped, a, kind, real, delta), m in zip(meta, c.lean('C16', reqs)):
     case = {'backend': bname, 'space': dumped, 'assignment': {k: sl.tag(v) for k, v in a.items()}, 'kind': kind}
